@@ -34,26 +34,35 @@ def caught_cell(rs):
     return (", ".join(f"`./check {r[0]}`" for r in caught), f"`{first}`", "; ".join(f"{r[0]}: {r[2]} ({r[3]})" for r in caught))
 
 
-final, first2 = read("SWEEP_ALL.txt"), read("SWEEP2.txt")
+final, first2, first3 = read("SWEEP_ALL.txt"), read("SWEEP2.txt"), read("SWEEP3.txt")
 t1 = ["| seed | what it changes (short) | caught by | first reported obligation / stand-in | violations reported (of which with a failing input replayed on the real code) |", "|---|---|---|---|---|"]
 t2 = ["| seed | what it changes (short) | as first met (checks as they were) | after the extensions: caught by | first reported obligation / stand-in | violations (with replayed input) |", "|---|---|---|---|---|---|"]
+t3 = ["| seed | what it changes (short) | as first met (third round) | after the extensions: caught by | first reported obligation / stand-in | violations (with replayed input) |", "|---|---|---|---|---|---|"]
 for sid in sorted(final):
     c = caught_cell(final[sid])
     if sid[-1] in "12":
         t1.append(f"| {sid} | {what(sid)} | {c[0]} | {c[1]} | {c[2]} |")
-    else:
+    elif sid[-1] in "34":
         f = caught_cell(first2.get(sid, []))
         t2.append(f"| {sid} | {what(sid)} | {f[0]} | {c[0]} | {c[1]} | {c[2]} |")
+    else:
+        f = caught_cell(first3.get(sid, []))
+        t3.append(f"| {sid} | {what(sid)} | {f[0]} | {c[0]} | {c[1]} | {c[2]} |")
 p = os.path.join(V, "DESIGN.md")
 s = open(p).read()
 a = s.index("| seed | what it changes (short) | caught by |")
 b = s.index("### 8.6b ")
 s = s[:a] + "\n".join(t1) + "\n\n" + s[b:]
-a = s.index("| seed | what it changes (short) | as first met")
-b = s.index("### 8.7 ")
+a = s.index("| seed | what it changes (short) | as first met (checks as they were)")
+b = s.index("### 8.6c ")
 s = s[:a] + "\n".join(t2) + "\n\n" + s[b:]
+a = s.index("| seed | what it changes (short) | as first met (third round)")
+b = s.index("### 8.7 ")
+s = s[:a] + "\n".join(t3) + "\n\n" + s[b:]
 open(p, "w").write(s)
 n1 = sum(1 for l in t1[2:] if "not reported" not in l)
 n2 = sum(1 for l in t2[2:] if "not reported" not in l.split("|")[4])
 nf = sum(1 for l in t2[2:] if "not reported" not in l.split("|")[3])
-print(f"round 1: {n1}/{len(t1) - 2} reported; round 2: first met {nf}/{len(t2) - 2}, now {n2}/{len(t2) - 2}")
+n3 = sum(1 for l in t3[2:] if "not reported" not in l.split("|")[4])
+nf3 = sum(1 for l in t3[2:] if "not reported" not in l.split("|")[3])
+print(f"round 1: {n1}/{len(t1) - 2} reported; round 2: first met {nf}/{len(t2) - 2}, now {n2}/{len(t2) - 2}; round 3: first met {nf3}/{len(t3) - 2}, now {n3}/{len(t3) - 2}")
